@@ -674,6 +674,23 @@ std::vector<surf_point> get_surf_points(const numpy::aligned_array<T>& int_img, 
     return compute_descriptors(int_img, points, max_points);
 }
 
+// The pyramid has nr_octaves levels of nr_intervals planes. Octave o is sampled
+// with step initial_step_size * 2^o inside a border of get_border_size(o) * step
+// pixels: all of these must be positive ints.
+bool check_pyramid_parameters(const int nr_octaves, const int nr_intervals, const int initial_step_size) {
+    bool ok = (nr_octaves > 0 && nr_octaves <= 30 && nr_intervals > 0 && initial_step_size > 0);
+    if (ok) {
+        const double max_step = initial_step_size * std::pow(2.0, nr_octaves - 1.0);
+        const double max_border = 1.5 * (std::pow(2.0, double(nr_octaves)) * (nr_intervals + 1.0) + 1) + 1;
+        ok = (max_step * max_border < std::numeric_limits<int>::max());
+    }
+    if (!ok) {
+        PyErr_SetString(PyExc_ValueError,
+            "mahotas.features.surf: nr_octaves, nr_scales and initial_step_size must be positive and small enough for the filter sizes to fit an int");
+    }
+    return ok;
+}
+
 PyObject* py_surf(PyObject* self, PyObject* args) {
     PyArrayObject* array;
     PyArrayObject* res;
@@ -689,6 +706,7 @@ PyObject* py_surf(PyObject* self, PyObject* args) {
         PyErr_SetString(PyExc_RuntimeError, TypeErrorMsg);
         return NULL;
     }
+    if (!check_pyramid_parameters(nr_octaves, nr_intervals, initial_step_size)) return NULL;
     holdref array_ref(array);
     try {
         std::vector<surf_point> spoints;
@@ -787,6 +805,7 @@ PyObject* py_interest_points(PyObject* self, PyObject* args) {
         PyErr_SetString(PyExc_RuntimeError, TypeErrorMsg);
         return NULL;
     }
+    if (!check_pyramid_parameters(nr_octaves, nr_intervals, initial_step_size)) return NULL;
     holdref array_ref(array);
     hessian_pyramid pyramid;
     std::vector<interest_point> interest_points;
@@ -834,6 +853,7 @@ PyObject* py_pyramid(PyObject* self, PyObject* args) {
         PyErr_SetString(PyExc_RuntimeError, TypeErrorMsg);
         return NULL;
     }
+    if (!check_pyramid_parameters(nr_octaves, nr_intervals, initial_step_size)) return NULL;
     holdref array_ref(array);
     hessian_pyramid pyramid;
     try {
